@@ -265,7 +265,9 @@ class AbsMachine:
         if isinstance(op, (ast.NotEq, ast.IsNot)):
             r = sym_eq(a, b)
             return None if r is None else not r
-        if any(x is UNKNOWN or isinstance(x, (Sym, SymInt, _Unred)) for x in (a, b)):
+        if isinstance(a, SymInt) and isinstance(b, SymInt) and a.base == b.base and a.mod is None and b.mod is None:
+            a, b = a.off, b.off  # same unbounded symbolic base: ordering of the offsets
+        if any(x is UNKNOWN or isinstance(x, (Sym, SymInt, _Unred, Obj)) for x in (a, b)):
             return None
         try:
             if isinstance(op, ast.Lt):
